@@ -171,6 +171,12 @@ func (c CurlyRouter) computeWebserviceScore(requestTokens []string, tokens []str
 			if len(each) == 0 {
 				return false, score
 			}
+			// a regex-constrained variable only claims a token that satisfies its expression
+			if colon := strings.Index(other, ":"); colon != -1 {
+				if matchesToken, _ := c.regularMatchesPathToken(other, colon, each); !matchesToken {
+					return false, score
+				}
+			}
 			score += 1
 		} else {
 			// not a parameter
